@@ -156,7 +156,8 @@ def run_check(prop, tier, seed):
             rep.update({"property": prop, "signature": v["sig"], "message": v["msg"], "step": v["step"],
                         "tier": tier, "seed": seed})
             try:
-                rep = plan.shrink(rep, v["sig"])
+                if not os.environ.get("VERIF_NO_SHRINK"):
+                    rep = plan.shrink(rep, v["sig"])
             except Exception as e:
                 rep["shrink_error"] = repr(e)
             with open(path, "w") as f:
